@@ -3,6 +3,7 @@ package props
 import (
 	"go/token"
 	"go/types"
+	"sort"
 	"strings"
 
 	"golang.org/x/tools/go/ssa"
@@ -13,7 +14,8 @@ import (
 // mapOrdered describes a value whose element order is map-iteration order.
 type mapOrdered struct {
 	Fn   *ssa.Function
-	Name string // variable name
+	Name string // variable name (for messages)
+	Key  string // stable identity: what the order comes from (the ranged map's type), independent of variable names
 	Pos  token.Pos
 	// unsanitised order-sensitive uses
 	BadUses []ssa.Instruction
@@ -35,10 +37,36 @@ func isSortCallOn(in ssa.Instruction, v func(ssa.Value) bool) bool {
 	if i := strings.Index(name, "["); i >= 0 {
 		name = name[:i]
 	}
-	if !sortFuncs[name] || len(ci.Common().Args) == 0 {
+	if len(ci.Common().Args) == 0 {
 		return false
 	}
-	return DerivesLocal(ci.Common().Args[0], v)
+	if sortFuncs[name] {
+		return DerivesLocal(ci.Common().Args[0], v)
+	}
+	// a helper of the module that sorts the slice it is handed, on every path
+	h := ci.Common().StaticCallee()
+	if h == nil || h.Blocks == nil || !FuncInModule(h) {
+		return false
+	}
+	for pi, prm := range h.Params {
+		if pi >= len(ci.Common().Args) || !DerivesLocal(ci.Common().Args[pi], v) {
+			continue
+		}
+		for _, sc := range Calls(h, false) {
+			n2 := CalleeName(sc.Common())
+			if i := strings.Index(n2, "["); i >= 0 {
+				n2 = n2[:i]
+			}
+			if !sortFuncs[n2] || len(sc.Common().Args) == 0 || !DerivesLocal(sc.Common().Args[0], func(x ssa.Value) bool { return x == ssa.Value(prm) }) {
+				continue
+			}
+			t, _ := PathAvoiding(h, h.Blocks[0].Instrs[0], func(x ssa.Instruction) bool { _, isRet := x.(*ssa.Return); return isRet }, func(x ssa.Instruction) bool { return x == ssa.Instruction(sc) }, nil)
+			if t == nil {
+				return true
+			}
+		}
+	}
+	return false
 }
 
 // mapLoops returns, for every loop over a map in fn, the Next instruction and
@@ -57,15 +85,26 @@ func mapLoops(fn *ssa.Function) map[*ssa.Next]map[*ssa.BasicBlock]bool {
 		if _, isMap := rg.X.Type().Underlying().(*types.Map); !isMap {
 			return
 		}
+		// the natural loop of the header: the blocks from which a back edge (a predecessor of the
+		// header that the header dominates) can be reached without passing the header. Code that
+		// follows the loop inside an enclosing loop is NOT part of it.
 		body := map[*ssa.BasicBlock]bool{}
 		hdr := nx.Block()
-		for _, b := range fn.Blocks {
-			if b == hdr || !hdr.Dominates(b) {
+		var work []*ssa.BasicBlock
+		for _, p := range hdr.Preds {
+			if hdr.Dominates(p) && p != hdr {
+				work = append(work, p)
+			}
+		}
+		for len(work) > 0 {
+			b := work[len(work)-1]
+			work = work[:len(work)-1]
+			if body[b] || b == hdr {
 				continue
 			}
-			// b is in the loop if the header is reachable from it
-			if len(b.Instrs) > 0 && ReachesFrom(fn, b.Instrs[0], nx) {
-				body[b] = true
+			body[b] = true
+			for _, p := range b.Preds {
+				work = append(work, p)
 			}
 		}
 		out[nx] = body
@@ -77,7 +116,18 @@ func mapLoops(fn *ssa.Function) map[*ssa.Next]map[*ssa.BasicBlock]bool {
 func findMapOrdered(c *Ctx, fn *ssa.Function) []mapOrdered {
 	var out []mapOrdered
 	loops := mapLoops(fn)
-	for nx, body := range loops {
+	var order []*ssa.Next
+	for nx := range loops {
+		order = append(order, nx)
+	}
+	sort.Slice(order, func(i, j int) bool {
+		if order[i].Block().Index != order[j].Block().Index {
+			return order[i].Block().Index < order[j].Block().Index
+		}
+		return order[i].Pos() < order[j].Pos()
+	})
+	for _, nx := range order {
+		body := loops[nx]
 		hdr := nx.Block()
 		inLoop := func(in ssa.Instruction) bool { return body[in.Block()] || in.Block() == hdr }
 		// (1) SSA accumulators: phis in the header (or in headers of
@@ -141,7 +191,7 @@ func findMapOrdered(c *Ctx, fn *ssa.Function) []mapOrdered {
 				}
 				grow(acc)
 				inFamily := func(v ssa.Value) bool { return family[v] }
-				mo := mapOrdered{Fn: fn, Name: strings.TrimPrefix(acc.Comment, "#"), Pos: call.Pos(), Kind: "slice"}
+				mo := mapOrdered{Fn: fn, Name: strings.TrimPrefix(acc.Comment, "#"), Pos: call.Pos(), Kind: "slice", Key: TypeString(acc.Type()) + "-in-order-of " + rangedMapType(nx)}
 				if mo.Name == "" {
 					mo.Name = acc.Name()
 				}
@@ -171,13 +221,13 @@ func findMapOrdered(c *Ctx, fn *ssa.Function) []mapOrdered {
 						if call, ok := r.(*ssa.Call); ok && IsCallTo(call, "builtin.len", "builtin.cap") {
 							continue
 						}
-						sanitised := false
-						for _, s := range sorts {
-							if s == r || InstrDominates(s, r) {
-								sanitised = true
+						// spilling the slice into a local variable is not a use; the variable's loads are (they are in the family)
+						if st, ok := r.(*ssa.Store); ok && family[st.Val] {
+							if _, local := st.Addr.(*ssa.Alloc); local {
+								continue
 							}
 						}
-						if !sanitised {
+						if !sanitisedBy(r, sorts, inFamily) {
 							mo.BadUses = append(mo.BadUses, r)
 						}
 					}
@@ -210,7 +260,7 @@ func findMapOrdered(c *Ctx, fn *ssa.Function) []mapOrdered {
 				}
 				key := AddrKey(st.Addr)
 				name := strings.TrimPrefix(LastField(AccessPath(st.Addr)), "local:")
-				mo := mapOrdered{Fn: fn, Name: name, Pos: st.Pos(), Kind: "slice"}
+				mo := mapOrdered{Fn: fn, Name: name, Pos: st.Pos(), Kind: "slice", Key: TypeString(call.Type()) + "-in-order-of " + rangedMapType(nx)}
 				related := func(k2 string) bool {
 					return k2 == key || strings.HasPrefix(key, k2+".") || strings.HasPrefix(key, k2+"[")
 				}
@@ -284,12 +334,12 @@ func findMapOrdered(c *Ctx, fn *ssa.Function) []mapOrdered {
 			for _, in := range b.Instrs {
 				switch x := in.(type) {
 				case *ssa.Send:
-					out = append(out, mapOrdered{Fn: fn, Name: "send", Pos: x.Pos(), Kind: "effect", BadUses: []ssa.Instruction{x}})
+					out = append(out, mapOrdered{Fn: fn, Name: "send", Key: "send", Pos: x.Pos(), Kind: "effect", BadUses: []ssa.Instruction{x}})
 				case ssa.CallInstruction:
 					n := CalleeName(x.Common())
 					if strings.HasPrefix(n, "fmt.Fprint") || strings.HasPrefix(n, "fmt.Print") || strings.HasPrefix(n, "log.Print") ||
 						strings.HasSuffix(n, ".Encode") || n == "io.WriteString" || strings.HasSuffix(n, "os.File.Write") || strings.HasSuffix(n, "os.File.WriteString") {
-						out = append(out, mapOrdered{Fn: fn, Name: n, Pos: x.Pos(), Kind: "effect", BadUses: []ssa.Instruction{x}})
+						out = append(out, mapOrdered{Fn: fn, Name: n, Key: n, Pos: x.Pos(), Kind: "effect", BadUses: []ssa.Instruction{x}})
 					}
 				}
 			}
@@ -322,7 +372,7 @@ func findMapOrdered(c *Ctx, fn *ssa.Function) []mapOrdered {
 		if !fromMap {
 			return
 		}
-		mo := mapOrdered{Fn: fn, Name: c.CallText(call.Pos()), Pos: call.Pos(), Kind: "slice"}
+		mo := mapOrdered{Fn: fn, Name: c.CallText(call.Pos()), Pos: call.Pos(), Kind: "slice", Key: "slice-collected-from " + TypeString(call.Call.Args[len(call.Call.Args)-1].Type())}
 		isV := func(v ssa.Value) bool { return v == ssa.Value(call) }
 		var sorts []ssa.Instruction
 		Instrs(fn, false, func(x ssa.Instruction) {
@@ -384,13 +434,7 @@ func findMapOrdered(c *Ctx, fn *ssa.Function) []mapOrdered {
 				if _, ok := r.(*ssa.DebugRef); ok {
 					continue
 				}
-				sanitised := false
-				for _, s := range sorts {
-					if s == r || InstrDominates(s, r) {
-						sanitised = true
-					}
-				}
-				if !sanitised {
+				if !sanitisedBy(r, sorts, isV) {
 					mo.BadUses = append(mo.BadUses, r)
 				}
 			}
@@ -398,4 +442,58 @@ func findMapOrdered(c *Ctx, fn *ssa.Function) []mapOrdered {
 		out = append(out, mo)
 	})
 	return out
+}
+
+// rangedMapType renders the type of the map a loop ranges over.
+func rangedMapType(nx *ssa.Next) string {
+	if rg, ok := nx.Iter.(*ssa.Range); ok {
+		return TypeString(rg.X.Type())
+	}
+	return "?"
+}
+
+// stableFuncKey is FuncKey with the ordinal of a closure ("$7") replaced by
+// the closure's signature, so that adding or inlining another closure of the
+// same function does not change the key.
+func stableFuncKey(fn *ssa.Function) string {
+	if fn.Parent() == nil {
+		return FuncKey(fn)
+	}
+	return stableFuncKey(fn.Parent()) + "$" + TypeString(fn.Signature)
+}
+
+// sanitisedBy reports whether use r of a map-ordered value is reached only
+// after one of the sorts ran: the sort dominates it, or r is a φ (a
+// loop-carried variable) and the sort dominates the end of every predecessor
+// through which the value flows into it — the slice is sorted in place before
+// the back edge is taken.
+func sanitisedBy(r ssa.Instruction, sorts []ssa.Instruction, carries func(ssa.Value) bool) bool {
+	for _, s := range sorts {
+		if s == r || InstrDominates(s, r) {
+			return true
+		}
+	}
+	phi, ok := r.(*ssa.Phi)
+	if !ok {
+		return false
+	}
+	any := false
+	for i, e := range phi.Edges {
+		if !carries(e) {
+			continue
+		}
+		any = true
+		pred := phi.Block().Preds[i]
+		last := pred.Instrs[len(pred.Instrs)-1]
+		ok := false
+		for _, s := range sorts {
+			if InstrDominates(s, last) {
+				ok = true
+			}
+		}
+		if !ok {
+			return false
+		}
+	}
+	return any
 }
